@@ -640,6 +640,11 @@ class MddMachine(Machine):
         for r, c, mask in st.h:
             if md(r) != mask:
                 raise Violation('a held MDD reference changed denotation')
+            if hasattr(st.m, 'ref') and (st.m.ref(r) != st.m._ref[abs(r)] or
+                                         st.m.ref(-r) != st.m._ref[abs(r)]):
+                raise Violation('MDD.ref(u) does not report the reference count of the node')
+            if r not in st.m or -r not in st.m:
+                raise Violation('a held MDD reference is reported as not in the manager')
 
     def key(self, st):
         d = {k: v for k, v in st.m.__dict__.items() if k not in ('_parser',)}
